@@ -116,4 +116,38 @@ and all (integer) arguments, `ResultT` over the result only. -/
 def choiceTypes (res a b : Int × Int) : Option IntTy × Option IntTy :=
   (typeForRange (min res.1 (min a.1 b.1)) (max res.2 (max a.2 b.2)), typeForRange res.1 res.2)
 
+/-! ## arithmetic / comparison operations: the intermediate type
+
+`constraints._integer_bounds_errors_for_expression` (front end) and
+`header_generator._render_builtin_operation` (back end) on one non-constant operation node.
+`clauses` = the `(minimum_value, maximum_value)` of the result (when integer-typed — not for
+`==`, `<`, `&&`, …) followed by those of every integer-typed argument. -/
+
+def fitsU64 (c : Int × Int) : Bool := decide (0 ≤ c.1) && decide (c.2 ≤ 18446744073709551615)
+def fitsI64 (c : Int × Int) : Bool :=
+  decide (-9223372036854775808 ≤ c.1) && decide (c.2 ≤ 9223372036854775807)
+
+/-- "Either all arguments to '…' and its result must fit in a 64-bit unsigned integer, or all
+must fit in a 64-bit signed integer": some clause needs `uint64_t` and another `int64_t`. -/
+def mixedSignedness (clauses : List (Int × Int)) : Bool :=
+  clauses.any (fun c => !fitsI64 c) && clauses.any (fun c => fitsI64 c && !fitsU64 c)
+
+/-- The front end accepts the node: every clause fits one of the two 64-bit types
+(`_integer_bounds_errors`, applied to the result and, through the recursion, to each
+argument) and they do not need different signedness. -/
+def frontAcceptsOp (clauses : List (Int × Int)) : Bool :=
+  clauses.all (fun c => fitsU64 c || fitsI64 c) && !mixedSignedness clauses
+
+/-- `min(minimum_integers)`, `max(maximum_integers)`. -/
+def hullOf : Int × Int → List (Int × Int) → Int × Int
+  | h, [] => h
+  | h, c :: cs => hullOf (min h.1 c.1, max h.2 c.2) cs
+
+/-- `IntermediateT` of `_render_builtin_operation`: `_cpp_integer_type_for_range` of the hull;
+`none` = the Python `None`, rendered into the header as the text `None` (ill-formed C++).
+No integer clause: the intermediate type is `bool` or the enum type (not modelled). -/
+def opIntermediate : List (Int × Int) → Option IntTy
+  | [] => none
+  | c :: cs => typeForRange (hullOf c cs).1 (hullOf c cs).2
+
 end Emboss.StaticAsserts
